@@ -8,7 +8,7 @@ cd /verif
 for g in "$@"; do PURL_REPO=/tmp/vtry python3 -c "
 from vlib import verus_run
 r=verus_run.run_group('$g','/tmp/vp/out2')
-print('$g', r['status'], r['reason'][:300])
+print('$g', r['status'], r['reason'][:300], '| STUBBED:', r.get('stubbed'), (r.get('partial') or '')[:600])
 for f in r['failures']: print('   ', f['unit'], f['repo_file'], f['repo_line'], f['message'], '|', f['clause'][:120])
 "; done
 rm -rf /tmp/vtry
